@@ -10,6 +10,7 @@ weights; non-negative, summing to one for Lattice, independent of the kernel).
 import numpy as np
 
 from tflv import core
+from tflv import modes
 from tflv.gen import lattice as gen
 from tflv.oracles import lattice as ol
 
@@ -45,7 +46,8 @@ def gen_cases(ctx):
   rng = ctx.rng
   for i in range(ctx.n):
     kind = ["prod", "prod", "kfl", "lattice", "pwl", "categorical"][i % 6]
-    yield {"kind": kind, "seed": int(rng.randint(2**31 - 1)), "zeros": ["none", "one", "two", "many", "mixed", "tiny", "tiny_and_zero"][int(rng.randint(7))]}
+    yield {"kind": kind, "seed": int(rng.randint(2**31 - 1)), "zeros": ["none", "one", "two", "many", "mixed", "tiny", "tiny_and_zero"][int(rng.randint(7))],
+           "exec": modes.pick(rng, (0.6, 0.4, 0.0), allow=("eager", "graph"))}
 
 
 def _cmp(ctx, site, got, want, what, extra=None):
@@ -87,11 +89,16 @@ def _run_prod(ctx, case, st):
   t = np.moveaxis(flat.reshape(moved.shape), -1, ax).astype(np.float32)
   T = tf.constant(t)
   up = rng.normal(size=np.delete(np.array(shape), ax)).astype(np.float32)
-  with tf.GradientTape(persistent=True) as tape:
-    tape.watch(T)
-    y1 = tf.reduce_sum(kfl.custom_reduce_prod(T, axis=axis) * up)
-    y0 = tf.reduce_sum(tf.reduce_prod(T, axis=axis) * up)
-  g1, g0 = tape.gradient(y1, T), tape.gradient(y0, T)
+  ex = case.get("exec", "eager")
+  ctx.cls("exec:" + ex)
+
+  def grads(T):
+    with tf.GradientTape(persistent=True) as tape:
+      tape.watch(T)
+      y1 = tf.reduce_sum(kfl.custom_reduce_prod(T, axis=axis) * up)
+      y0 = tf.reduce_sum(tf.reduce_prod(T, axis=axis) * up)
+    return tape.gradient(y1, T), tape.gradient(y0, T)
+  g1, g0 = modes.call(tf, ex, grads, T)
   fwd = float(np.abs(kfl.custom_reduce_prod(T, axis=axis).numpy() - tf.reduce_prod(T, axis=axis).numpy()).max()) if t.size else 0.0
   ctx.check("custom_reduce_prod/forward-equal", fwd == 0.0, "forward value differs from tf.reduce_prod by %.3g" % fwd)
   # float64 truth: product of the others
@@ -150,17 +157,24 @@ def _run_kfl(ctx, case, st):
   layer.bias.assign(bias)
   X = tf.constant(xin)
   up = tf.constant(rng.normal(size=(B, units)).astype(np.float32))
-  with tf.GradientTape(persistent=True) as tape:
-    tape.watch(X)
-    y = layer(X)
-    loss = tf.reduce_sum(y * up)
-    X3 = X if units > 1 else X[:, None, :]
-    yr = _kfl_reference(tf, X3, layer.kernel, layer.scale, layer.bias, units, dims, L, T, clip)
-    loss_r = tf.reduce_sum(yr * up)
+  ex = case.get("exec", "eager")
+  ctx.cls("exec:" + ex)
+  names = ("kernel", "scale", "bias", "inputs")
+
+  def grads(X):
+    wrt = (layer.kernel, layer.scale, layer.bias, X)
+    with tf.GradientTape(persistent=True) as tape:
+      tape.watch(X)
+      y = layer(X)
+      loss = tf.reduce_sum(y * up)
+      X3 = X if units > 1 else X[:, None, :]
+      yr = _kfl_reference(tf, X3, layer.kernel, layer.scale, layer.bias, units, dims, L, T, clip)
+      loss_r = tf.reduce_sum(yr * up)
+    return y, yr, [tape.gradient(loss, v) for v in wrt], [tape.gradient(loss_r, v) for v in wrt]
+  y, yr, gs, grs = modes.call(tf, ex, grads, X)
   ctx.cls("kfl:zeros=" + z, "kfl:dims=%d" % dims, "kfl:terms=%d" % T, "kfl:units=%d" % units)
   _cmp(ctx, "KFL/forward-equal", y.numpy().reshape(B, units), yr.numpy(), "KFL forward vs reduce_prod expression")
-  for name, var in (("kernel", layer.kernel), ("scale", layer.scale), ("bias", layer.bias), ("inputs", X)):
-    g, gr = tape.gradient(loss, var), tape.gradient(loss_r, var)
+  for name, g, gr in zip(names, gs, grs):
     _cmp(ctx, "KFL/grad-equal", g.numpy(), gr.numpy(), "d loss / d %s (zeros=%s)" % (name, z), {"wrt": name})
   return True, core.digest([case, core.arr_digest(K, S, x)])
 
